@@ -63,9 +63,13 @@ func (e *c31Env) key(idx uint32) *fix.ZooKey {
 	return nil
 }
 
-func newC31Env(n int) *c31Env {
+func newC31Env(n int) *c31Env { return newPoolEnv(n, (n-1)/3) }
+
+// newPoolEnv builds the configuration, participant sets and signed proposals for a VerifPool with
+// n peers and fault bound c.
+func newPoolEnv(n, c int) *c31Env {
 	fix.Quiet()
-	e := &c31Env{n: n, c: (n - 1) / 3}
+	e := &c31Env{n: n, c: c}
 	e.q = n - (n-1)/3
 	e.peers = fix.P256(n)
 	var pcs []*vconfig.PeerConfig
@@ -140,7 +144,7 @@ type c31Hist struct {
 	faulty   map[uint32]bool
 	log      []string
 	commitBy map[*vbft.VerifCommitMsg]uint32 // accepted commit message -> sending peer
-	endBySig map[string]c31Sent             // accepted endorse message signature -> sender, claimed hash
+	endBySig map[string]c31Sent              // accepted endorse message signature -> sender, claimed hash
 	// genuine endorsements produced so far: (proposer,forEmpty) -> endorser -> sig
 	endorsed map[string]map[uint32][]byte
 	// signatures honest peers produced in this history (may be replayed by faulty peers)
@@ -340,17 +344,19 @@ func (h *c31Hist) verdict(P uint32) c31Verdict {
 	v.verifiable = sortedU32(ok)
 	v.V = len(ok)
 	v.proposerOK = ok[P]
-	for i := uint32(1); int(i) <= e.n; i++ {
-		if ok[i] {
-			continue
-		}
-		if endClaim[i] {
+	// claimed-but-unverifiable signers, members or not (the code counts any claimed index)
+	for _, i := range sortedU32(endClaim) {
+		if !ok[i] {
 			v.byEndorserSig = append(v.byEndorserSig, i)
 		}
-		if sendClaim[i] {
+	}
+	for _, i := range sortedU32(sendClaim) {
+		if !ok[i] {
 			v.bySender = append(v.bySender, i)
 		}
-		if hashClaim[i] {
+	}
+	for _, i := range sortedU32(hashClaim) {
+		if !ok[i] {
 			v.byHash = append(v.byHash, i)
 		}
 	}
@@ -531,26 +537,35 @@ func c31KnownSet() c31Known {
 	return k
 }
 
-// TestC31_Witnesses replays the deterministic witness of every root cause found so far. A witness
-// that still reproduces and is not a listed known finding is a violation of C31.
-func TestC31_Witnesses(t *testing.T) {
+// c31WitnessTest replays the deterministic witness of one root cause (each in its own Test function,
+// i.e. its own process and replay file). A witness that still reproduces and is not a listed known
+// finding is a violation of C31.
+func c31WitnessTest(t *testing.T, key string) {
 	ev := harn.For("C31").Rule(c31Rule)
 	e := newC31Env(7)
 	for _, w := range c31Witnesses(e) {
+		if w.key != key {
+			continue
+		}
 		fails, msg := c31Replay(e, w)
 		ev.Case(true, "witness "+w.key+": "+w.what)
 		if !fails {
 			ev.Class("witness:" + w.key + ":no-longer-fails")
-			continue
+			return
 		}
 		ev.Class("witness:" + w.key + ":fails")
 		if harn.Known("C31", w.key, true) {
 			ev.Excluded()
-			continue
+			return
 		}
 		harn.Violation(t, "C31", map[string]string{"witness": w.key, "history": w.what}, "[%s] %s", w.key, msg)
 	}
 }
+
+func TestC31_WitnessEndorserSigs(t *testing.T)  { c31WitnessTest(t, c31KeyEndorserSigs) }
+func TestC31_WitnessSenderField(t *testing.T)   { c31WitnessTest(t, c31KeySender) }
+func TestC31_WitnessForeignHash(t *testing.T)   { c31WitnessTest(t, c31KeyHash) }
+func TestC31_WitnessProposerPlus1(t *testing.T) { c31WitnessTest(t, c31KeyProposer) }
 
 // ---------------------------------------------------------------------------------------------
 // generated histories
@@ -662,7 +677,10 @@ func c31History(t *testing.T, n int, quick, thorough int) {
 				p := pickProp("fprop")
 				named := f
 				if rapid.IntRange(0, 9).Draw(t, "imp") < 3 {
-					named = uint32(rapid.IntRange(1, n).Draw(t, "impAs"))
+					named = uint32(rapid.IntRange(1, n+1).Draw(t, "impAs"))
+					if int(named) > n {
+						named = 1000
+					}
 				}
 				hash := p.hBlock
 				switch rapid.IntRange(0, 9).Draw(t, "fhash") {
@@ -876,6 +894,6 @@ func indexOfPropByProposer(e *c31Env, proposer uint32) int {
 	return 0
 }
 
-func TestC31_HistoriesN4(t *testing.T)  { c31History(t, 4, 1500, 60000) }
-func TestC31_HistoriesN7(t *testing.T)  { c31History(t, 7, 1200, 50000) }
-func TestC31_HistoriesN10(t *testing.T) { c31History(t, 10, 800, 30000) }
+func TestC31_HistoriesN4(t *testing.T)  { c31History(t, 4, 1000, 60000) }
+func TestC31_HistoriesN7(t *testing.T)  { c31History(t, 7, 800, 50000) }
+func TestC31_HistoriesN10(t *testing.T) { c31History(t, 10, 500, 30000) }
